@@ -3,6 +3,7 @@ package core
 import (
 	"errors"
 	"fmt"
+	"runtime/debug"
 	"sort"
 	"strings"
 	"time"
@@ -199,11 +200,17 @@ func (e *TaskExecutor) ExecuteTask(
 	traceCtx telemetry.TraceContext,
 	task *proto.Task,
 	stub *cachestub.BatchCacheStub,
-) (*proto.TxResponse, *proto.BatchTxEvent) {
+) (r *proto.TxResponse, ev *proto.BatchTxEvent) {
 	traceCtx, span := e.TracingHandler.StartNewSpan(traceCtx, "TaskExecutor.ExecuteTasks")
 	defer span.End()
 
 	log := logger.Logger()
+	defer func() {
+		if rc := recover(); rc != nil {
+			log.Criticalf("task %s panicked:\n%s", task.GetId(), string(debug.Stack()))
+			r, ev = handleTaskError(span, task, fmt.Errorf("panic executing task %s", task.GetId()))
+		}
+	}()
 	start := time.Now()
 	span.SetAttributes(attribute.String("task_method", task.GetMethod()))
 	span.SetAttributes(attribute.StringSlice("task_args", task.GetArgs()))
